@@ -214,7 +214,12 @@ def c01_fee(run):
                 continue
             opt = r.fields[('Ok', 0)]
             if opt.discr == 'None':
-                run.sample({'action': name, 'path': i, 'result': 'free (no fee asset)'}); run.reached(f'{name}: free'); continue
+                me = ex.read(p, p.roots['args'][0].loc)
+                adt = ex.adts.lookup(me.ty)
+                has_fee_asset = bool(adt and 'fee_asset' in adt.get('fields', []))
+                run.sample({'action': name, 'path': i, 'result': 'free (no fee asset)'}); run.reached(f'{name}: free')
+                run.prove(f'{name}: no fee is charged only for an action kind that names no fee asset (never because of the schedule\'s values) [path {i}]', p.pc, z3.BoolVal(not has_fee_asset))
+                continue
             tup = opt.fields[('Some', 0)]
             asset_ref, total = tup
             var = p.world.get('var_component', z3.BitVecVal(0, 128))
